@@ -345,7 +345,13 @@ class Interp:
 
     def _compare(self, e: ast.Compare, env, st, func, depth):
         if len(e.ops) != 1:
-            return [(st, TOP)]
+            # a < b < c  ==  (a < b) and (b < c)
+            parts = []
+            left = e.left
+            for op_, right in zip(e.ops, e.comparators):
+                parts.append(ast.copy_location(ast.Compare(left=left, ops=[op_], comparators=[right]), e))
+                left = right
+            return self._boolop(ast.copy_location(ast.BoolOp(op=ast.And(), values=parts), e), env, st, func, depth)
         op = e.ops[0]
         out = []
         for s1, l in self._ev(e.left, env, st, func, depth, out):
